@@ -34,7 +34,7 @@ def plan(tier):
 
 
 def ncases(tier):
-    return 300 if tier == "quick" else 2500
+    return 400 if tier == "quick" else 2500
 
 
 def gen_case(rng, i):
